@@ -360,6 +360,8 @@ hostlist_t read_wcoll(char *file, FILE * f)
 
     ctx = wcoll_ctx_create (path);
     wcoll_ctx_read_stream (ctx, fp);
+    if (f == NULL)              /* a file opened here is closed here */
+        fclose (fp);
     new = ctx->hl;
     wcoll_ctx_destroy (ctx);
 
